@@ -80,7 +80,8 @@ def f_exactly_true(n):
 def f_gcc(n, v0, m, cap):
     for ls in itertools.product(range(0, cap + 1), repeat=m):
         for us in itertools.product(range(0, cap + 1), repeat=m):
-            if all(l <= u for l, u in zip(ls, us)):
+            # l_j > u_j (an unsatisfiable but undocumented-as-illegal parametrisation) is kept when it exceeds by one
+            if all(l <= u + 1 for l, u in zip(ls, us)):
                 for b in boxes(n, v0, v0 + m - 1):
                     yield "gcc", [v0] + list(ls) + list(us), b
 
@@ -258,7 +259,7 @@ def _random_case(r, alg):
         m = r.randint(1, 5)
         v0 = r.randint(-3, 3)
         ls = [r.choice([0, 0, 0, 1, 2]) for _ in range(m)]
-        us = [l + r.choice([0, 1, 2, n]) for l in ls]
+        us = [max(0, l + r.choice([-1, 0, 0, 1, 2, n])) for l in ls]
         return alg, [v0] + ls + us, tuple(rnd_iv(r, v0, v0 + m - 1, r.choice([0, 1, 2, m])) for _ in range(n))
     if alg == "lexicographic_leq":
         m = r.choice([1, 2, 3, 3, 4])
@@ -306,7 +307,7 @@ def big_case(r: random.Random):
         m = r.choice([1, 2, 3, 5, 8, 12])
         v0 = r.choice([-7, 0, 1, 100])
         ls = [r.choice([0, 0, 0, 1, 2]) for _ in range(m)]
-        us = [l + r.choice([0, 0, 1, 2, n]) for l in ls]
+        us = [max(0, l + r.choice([-1, 0, 0, 1, 2, n])) for l in ls]
         box = []
         for _ in range(n):
             a = r.randint(v0, v0 + m - 1)
